@@ -4,7 +4,7 @@ CONSTANTS
   MaxStmts = 2
   FuncKinds = {"func"}
   BodyKinds = {"call"}
-  StmtKinds = {"call", "cmd", "assign", "mcall1", "mcall2", "if", "for", "switch", "defer", "var", "lamexpr", "lamblk", "funclit", "fwd", "swtag", "swbare", "swbare2", "selsend"}
+  StmtKinds = {"call", "cmd", "assign", "mcall1", "mcall2", "if", "for", "switch", "defer", "var", "lamexpr", "lamblk", "funclit", "fwd"}
   GapSet = "g5"
   CaseGapSet = "g2"
   FileKind = "xgo"
